@@ -16,6 +16,24 @@ from glint.report import Ctx
 from glint.report import finish
 
 
+def run_rules(check, ctx) -> None:
+    """Run a property's rules; a rule group that runs out of sites is recorded, not fatal."""
+    from glint.report import Shortfall
+
+    groups = getattr(check, "groups", None)
+    if not groups:
+        try:
+            check(ctx)
+        except Shortfall:
+            pass
+        return
+    for g in groups:
+        try:
+            g(ctx)
+        except Shortfall:
+            continue
+
+
 def main(argv: list[str] | None = None) -> int:
     ap = argparse.ArgumentParser(prog="check")
     ap.add_argument("prop")
@@ -42,15 +60,20 @@ def main(argv: list[str] | None = None) -> int:
                 rp = json.load(fh)
             only = (rp["rule"], rp["instance"])
         ctx = Ctx(repo, prop, args.tier)
-        RULES[prop](ctx)
+        run_rules(RULES[prop], ctx)
         if only is not None:
             ctx.obligations = [o for o in ctx.obligations if (o.rule, o.instance) == only]
             if not ctx.obligations:
                 print(f"ANALYSIS-ERROR replay instance {only} no longer exists in the tree")
                 return 2
         if not ctx.obligations:
-            raise AnalysisError(f"{prop}: no obligation was generated")
-        return finish(ctx, t0, seed, repo.stats(), replay_only=only is not None)
+            raise AnalysisError(f"{prop}: no obligation was generated" + "; ".join(ctx.shortfalls))
+        rc = finish(ctx, t0, seed, repo.stats(), replay_only=only is not None)
+        if ctx.shortfalls and rc == 0:
+            for m in ctx.shortfalls:
+                print(f"ANALYSIS-ERROR {prop}: {m}")
+            return 2
+        return rc
     except AnalysisError as e:
         print(f"ANALYSIS-ERROR {prop}: {e}")
         return 2
